@@ -11,6 +11,7 @@ fn main() {
         ("c14", "record") => yv::c14::record(&args),
         ("c14", "replay") => yv::c14::replay(&args),
         ("c15", "record") => yv::c15::record(&args),
+        ("c13", "record") => yv::c13::record(&args),
         _ => { eprintln!("unknown command {:?}", &a[..2]); std::process::exit(2); }
     }
 }
